@@ -21,13 +21,13 @@ CONSTANTS Threads, CkPin, CkMono, CkList, CkSeq
 
 Tr == ndJsonDeserialize(IOEnv.TRACE)
 
-VARIABLES l, ecap, global, fwd, g, atstart, mustpin, quiet, conc, seen, glist
-vars == <<l, ecap, global, fwd, g, atstart, mustpin, quiet, conc, seen, glist>>
+VARIABLES l, ecap, global, fwd, g, atstart, mustpin, quiet, conc, seen, mseen, glist
+vars == <<l, ecap, global, fwd, g, atstart, mustpin, quiet, conc, seen, mseen, glist>>
 
 NoGuard == [st |-> "none", ep |-> 0, lo |-> 0, gen |-> 0]
 Clean == /\ global = ecap /\ fwd = "idle"
          /\ g = [t \in Threads |-> NoGuard]
-         /\ atstart = {} /\ mustpin = {} /\ quiet = TRUE /\ conc = FALSE /\ seen = 0
+         /\ atstart = {} /\ mustpin = {} /\ quiet = TRUE /\ conc = FALSE /\ seen = 0 /\ mseen = 0
          /\ glist = [t \in Threads |-> <<>>]
 Init == l = 1 /\ ecap = 256 /\ Clean /\ TLCSet(1, 1)
 
@@ -46,12 +46,12 @@ SortDesc(S) == SetToSortSeq(S, LAMBDA a, b : a > b)
 Live == {t \in Threads : g[t].st \in {"live", "dropping"}}
 
 Cfg == /\ IsEv("cfg") /\ ecap' = Ev.ecap /\ global' = Ev.ecap
-       /\ Adv /\ UNCHANGED <<fwd, g, atstart, mustpin, quiet, conc, seen, glist>>
+       /\ Adv /\ UNCHANGED <<fwd, g, atstart, mustpin, quiet, conc, seen, mseen, glist>>
 
 GCall == /\ IsEv("gcall") /\ g[Ev.t].st = "none"
          /\ g' = [g EXCEPT ![Ev.t] = [st |-> "creating", ep |-> 0, lo |-> global, gen |-> g[Ev.t].gen + 1]]
          /\ Touch
-         /\ Adv /\ UNCHANGED <<ecap, global, fwd, atstart, mustpin, seen, glist>>
+         /\ Adv /\ UNCHANGED <<ecap, global, fwd, atstart, mustpin, seen, mseen, glist>>
 
 GRet == /\ IsEv("gret") /\ g[Ev.t].st = "creating"
         \* the guard reports an epoch that was current at some instant of the call
@@ -62,26 +62,26 @@ GRet == /\ IsEv("gret") /\ g[Ev.t].st = "creating"
         /\ g' = [g EXCEPT ![Ev.t] = [@ EXCEPT !.st = "live", !.ep = Ev.ep]]
         /\ glist' = [glist EXCEPT ![Ev.t] = IF Ev.haslist = 1 THEN Ev.list ELSE <<>>]
         /\ Touch
-        /\ Adv /\ UNCHANGED <<ecap, global, fwd, atstart, mustpin, seen>>
+        /\ Adv /\ UNCHANGED <<ecap, global, fwd, atstart, mustpin, seen, mseen>>
 
 ReList == /\ IsEv("relist") /\ g[Ev.t].st = "live"
           /\ CkList => Ev.list = glist[Ev.t]                         \* unchanged while the guard lives
           /\ Touch
-          /\ Adv /\ UNCHANGED <<ecap, global, fwd, g, atstart, mustpin, seen, glist>>
+          /\ Adv /\ UNCHANGED <<ecap, global, fwd, g, atstart, mustpin, seen, mseen, glist>>
 
 \* the harness saw the list node (or the list) of a live guard freed: never legal under CkList
 Uaf == /\ IsEv("uaf") /\ ~CkList
        /\ Touch
-       /\ Adv /\ UNCHANGED <<ecap, global, fwd, g, atstart, mustpin, seen, glist>>
+       /\ Adv /\ UNCHANGED <<ecap, global, fwd, g, atstart, mustpin, seen, mseen, glist>>
 
 DCall == /\ IsEv("dcall") /\ g[Ev.t].st = "live"
          /\ g' = [g EXCEPT ![Ev.t] = [@ EXCEPT !.st = "dropping"]]
          /\ Touch
-         /\ Adv /\ UNCHANGED <<ecap, global, fwd, atstart, mustpin, seen, glist>>
+         /\ Adv /\ UNCHANGED <<ecap, global, fwd, atstart, mustpin, seen, mseen, glist>>
 DRet == /\ IsEv("dret") /\ g[Ev.t].st = "dropping"
         /\ g' = [g EXCEPT ![Ev.t] = [@ EXCEPT !.st = "none"]]
         /\ Touch
-        /\ Adv /\ UNCHANGED <<ecap, global, fwd, atstart, mustpin, seen, glist>>
+        /\ Adv /\ UNCHANGED <<ecap, global, fwd, atstart, mustpin, seen, mseen, glist>>
 
 FCall == /\ IsEv("fcall") /\ fwd \in {"idle", "done"}
          /\ fwd' = "active"
@@ -89,12 +89,12 @@ FCall == /\ IsEv("fcall") /\ fwd \in {"idle", "done"}
          /\ quiet' = ~Busy
          /\ conc' = FALSE
          /\ mustpin' = {}
-         /\ Adv /\ UNCHANGED <<ecap, global, g, seen, glist>>
+         /\ Adv /\ UNCHANGED <<ecap, global, g, seen, mseen, glist>>
 FDone == /\ IsEv("fdone") /\ fwd = "active"
          /\ fwd' = "done"
          /\ global' = global + 1
          /\ mustpin' = {<<t, g[t].ep>> : t \in {u \in Threads : g[u].st = "live" /\ <<u, g[u].gen>> \in atstart}}
-         /\ Adv /\ UNCHANGED <<ecap, g, atstart, quiet, conc, seen, glist>>
+         /\ Adv /\ UNCHANGED <<ecap, g, atstart, quiet, conc, seen, mseen, glist>>
 FObs == /\ IsEv("fobs") /\ fwd = "done"
         /\ CkMono => /\ Ev.cur = global                                   \* exactly one step per forward
                      /\ Ev.min <= Ev.cur
@@ -108,31 +108,40 @@ FObs == /\ IsEv("fobs") /\ fwd = "done"
               /\ Ev.haslist = 1 => Ev.list = want
               /\ Ev.min = want[Len(want)]
               /\ Ev.pn <= Cardinality({e \div ecap : e \in ({Ev.cur, Ev.cur - 1} \cup pins)}) + 3   \* "plus a constant"
+        /\ CkMono => Ev.cur >= mseen                                     \* an earlier minimum never exceeds a later current
         /\ seen' = IF Ev.cur > seen THEN Ev.cur ELSE seen
+        /\ mseen' = IF Ev.min > mseen THEN Ev.min ELSE mseen
         /\ fwd' = "idle"
         /\ Adv /\ UNCHANGED <<ecap, global, g, atstart, mustpin, quiet, conc, glist>>
 
 CurEv == /\ IsEv("cur")
-         /\ CkMono => (Ev.v >= global /\ Ev.v <= MaxCur /\ Ev.v >= seen)
+         /\ CkMono => (Ev.v >= global /\ Ev.v <= MaxCur /\ Ev.v >= seen /\ Ev.v >= mseen)
          /\ seen' = IF Ev.v > seen THEN Ev.v ELSE seen
-         /\ Adv /\ UNCHANGED <<ecap, global, fwd, g, atstart, mustpin, quiet, conc, glist>>
+         /\ Adv /\ UNCHANGED <<ecap, global, fwd, g, atstart, mustpin, quiet, conc, mseen, glist>>
 MinEv == /\ IsEv("min")
          /\ CkMono => (Ev.v <= MaxCur /\ Ev.v >= ecap)
+         /\ mseen' = IF Ev.v > mseen THEN Ev.v ELSE mseen
          /\ Adv /\ UNCHANGED <<ecap, global, fwd, g, atstart, mustpin, quiet, conc, seen, glist>>
+
+\* a live guard was moved into another object and back: same epoch, still live
+GMove == /\ IsEv("gmove") /\ g[Ev.t].st = "live"
+         /\ (CkPin \/ CkMono \/ CkList \/ CkSeq) => Ev.ep = g[Ev.t].ep
+         /\ Touch
+         /\ Adv /\ UNCHANGED <<ecap, global, fwd, g, atstart, mustpin, seen, mseen, glist>>
 
 MgrDead == /\ IsEv("mgrdead")
            /\ CkSeq => Ev.pn = 0                                           \* destruction frees every list node
-           /\ Adv /\ UNCHANGED <<ecap, global, fwd, g, atstart, mustpin, quiet, conc, seen, glist>>
+           /\ Adv /\ UNCHANGED <<ecap, global, fwd, g, atstart, mustpin, quiet, conc, seen, mseen, glist>>
 Other == /\ (IsEv("skip") \/ IsEv("tend") \/ IsEv("texit"))
-         /\ Adv /\ UNCHANGED <<ecap, global, fwd, g, atstart, mustpin, quiet, conc, seen, glist>>
+         /\ Adv /\ UNCHANGED <<ecap, global, fwd, g, atstart, mustpin, quiet, conc, seen, mseen, glist>>
 \* the run stopped before every thread finished (deadlock, crash): never legal for these programs
 Reset == /\ IsEv("reset")
          /\ global' = ecap /\ fwd' = "idle" /\ g' = [t \in Threads |-> NoGuard]
-         /\ atstart' = {} /\ mustpin' = {} /\ quiet' = TRUE /\ conc' = FALSE /\ seen' = 0
+         /\ atstart' = {} /\ mustpin' = {} /\ quiet' = TRUE /\ conc' = FALSE /\ seen' = 0 /\ mseen' = 0
          /\ glist' = [t \in Threads |-> <<>>]
          /\ Adv /\ UNCHANGED ecap
 
-Next == Cfg \/ GCall \/ GRet \/ ReList \/ Uaf \/ DCall \/ DRet \/ FCall \/ FDone \/ FObs \/ CurEv \/ MinEv
+Next == Cfg \/ GCall \/ GRet \/ GMove \/ ReList \/ Uaf \/ DCall \/ DRet \/ FCall \/ FDone \/ FObs \/ CurEv \/ MinEv
         \/ MgrDead \/ Other \/ Reset
 Spec == Init /\ [][Next]_vars
 Progress == IF l > TLCGet(1) THEN TLCSet(1, l) ELSE TRUE
